@@ -115,7 +115,7 @@ pub fn run(p: &Params, rep: &mut Report) {
     ck.rep.count("exhaustive_pairs", idx / p.nshards);
     // random part: longer strings over a 5-letter alphabet with planted occurrences and overlapping patterns
     let mut rng = p.rng(6);
-    let nrand = p.size(20_000 / 16, 2_000_000 / 16);
+    let nrand = p.size(60_000, 1_000_000);
     let alpha = [0x61u32, 0x62, 0x63, 0x2FFFF, 0];
     for _ in 0..nrand {
         let la = rng.usize(41);
